@@ -774,7 +774,12 @@ def run_script(c, at, script, fmts=("md5",)):
             with open(p, "wb") as f:
                 f.write(old + b"damaged")
             c.changed.add(p)
-        code = c.create(at, st.get("p", []), st.get("how", "i"), st.get("spell", "abs"), st.get("fmts", fmts), st.get("extra", ()), st.get("sf"))
+        sf = st.get("sf")
+        if sf:
+            # a -sf target that is itself matched is named explicitly: the statement does not say which of the two wins
+            spec = W.spec_of(c.effective(at, st.get("p", [])))
+            sf = [t for t in sf if status(t, spec) == "vis"] or None
+        code = c.create(at, st.get("p", []), st.get("how", "i"), st.get("spell", "abs"), st.get("fmts", fmts), st.get("extra", ()), sf)
         if dmg:
             if code != 11:
                 c.bad(f"create on an altered recorded file {dmg!r} exits {code}, the scenario needs a failed generation (11)", "accumulate/failed-generation-setup")
@@ -846,12 +851,11 @@ def main():
             plans = []
             nests = list(range(len(NESTED[tree])))
             if thorough:
+                # every placement; four of the eight deliveries (the starting point rotates), both flows
                 for ni in nests:
-                    for hi, how in enumerate(HOWS):
-                        for flow in ("g1", "late"):
-                            if not pset and hi > 0:
-                                continue
-                            plans.append((ni, how, SPELLS[(k + hi + ni + pi) % len(SPELLS)], flow, fsets[(k + pi + hi) % len(fsets)]))
+                    for j in range(4 if pset else 2):
+                        hi = (k + pi + ni + 2 * j + j // 2) % len(HOWS)
+                        plans.append((ni, HOWS[hi], SPELLS[(k + hi + ni + pi) % len(SPELLS)], ("g1", "late")[j % 2], fsets[(k + pi + ni + 5 * j) % len(fsets)]))
             else:
                 # every pattern set once (placement, delivery, spelling, flow and formats rotate), every other one a second
                 # time on another placement with the other flow
@@ -861,6 +865,8 @@ def main():
                     ni2 = (ni + 1 + (pi // 2) % (len(nests) - 1)) % len(nests)
                     plans.append((ni2, HOWS[(k + pi + 3) % len(HOWS)], SPELLS[(k + pi + 1) % len(SPELLS)], ("late", "g1")[(k + pi) % 2], fsets[(k + pi + 1) % len(fsets)]))
             for ni, how, spell, flow, fmts in plans:
+                if tree == "links":
+                    flow = "g1"  # a dangling link can only be sealed when it is ignored from the first generation on
                 cid = f"excl/{tree}/n{ni}/p{pi}/{how}/{spell}/{flow}"
                 if not run.want(cid):
                     continue
